@@ -5,6 +5,7 @@ import (
 	"go/constant"
 	"go/token"
 	"go/types"
+	"regexp"
 	"sort"
 	"strings"
 
@@ -301,6 +302,11 @@ func renderD(v ssa.Value, d int) string {
 	case *ssa.BinOp:
 		return "(" + renderD(x.X, d-1) + " " + x.Op.String() + " " + renderD(x.Y, d-1) + ")"
 	case *ssa.Call:
+		if inlineValueHelpers {
+			if s, ok := renderValueHelper(x, d); ok {
+				return s
+			}
+		}
 		return renderCall(x.Common(), d)
 	case *ssa.Extract:
 		return renderD(x.Tuple, d-1) + fmt.Sprintf("#%d", x.Index)
@@ -1594,4 +1600,67 @@ func provablyNil(v ssa.Value, gs []Guard) bool {
 		}
 	}
 	return false
+}
+
+// inlineValueHelpers: when set (by holds, as a last reading), a call of a small local
+// single-result helper is rendered as the value it returns, with the helper's parameters replaced
+// by the rendered arguments — the text the expression had before it was moved into the helper.
+var inlineValueHelpers bool
+var valueHelperDepth int
+
+var paramRefRe = regexp.MustCompile(`\$(r|[0-9]+)`)
+
+func renderValueHelper(call *ssa.Call, d int) (string, bool) {
+	if valueHelperDepth > 0 || call.Parent() == nil {
+		return "", false
+	}
+	fn := call.Common().StaticCallee()
+	if fn == nil || fn.Pkg == nil || fn.Pkg != call.Parent().Pkg || fn == call.Parent() || exported(fn.Name()) ||
+		len(fn.Blocks) == 0 || len(fn.Blocks) > 4 || fn.Signature.Results().Len() != 1 {
+		return "", false
+	}
+	var rets []string
+	n := 0
+	for _, b := range fn.Blocks {
+		for _, in := range b.Instrs {
+			n++
+			switch y := in.(type) {
+			case *ssa.Store, *ssa.MapUpdate, *ssa.Send, *ssa.Go, *ssa.Defer, *ssa.Panic:
+				return "", false
+			case *ssa.Return:
+				if len(y.Results) != 1 {
+					return "", false
+				}
+				dd := d - 2
+				if dd > 2 {
+					dd = 2
+				}
+				valueHelperDepth++
+				rets = append(rets, renderD(y.Results[0], dd))
+				valueHelperDepth--
+			}
+		}
+	}
+	if n > 16 || len(rets) == 0 {
+		return "", false
+	}
+	sub := map[string]string{}
+	for i, prm := range fn.Params {
+		if i < len(call.Common().Args) {
+			sub[renderD(prm, 2)] = renderD(call.Common().Args[i], d-1)
+		}
+	}
+	for i, r := range rets {
+		rets[i] = paramRefRe.ReplaceAllStringFunc(r, func(m string) string {
+			if v, ok := sub[m]; ok {
+				return v
+			}
+			return m
+		})
+	}
+	if len(rets) == 1 {
+		return rets[0], true
+	}
+	sort.Strings(rets)
+	return "phi(" + strings.Join(dedup(rets), "|") + ")", true
 }
